@@ -431,3 +431,271 @@ Proof.
     assert ((x', u') = (x, u)) by (eapply (nodup_map_inj (fun xu : nf_field * unit_row => unit_key (snd xu)) po); eauto).
     congruence.
 Qed.
+
+(* ================================================================ the other direction *)
+
+(* the library value that carries a reference value: Iei = the constant, Len = the length, a fixed array padded *)
+Definition to_lib (x:nf_field) (v:fval) : fval :=
+  if fv_present v then
+    mk_fval true (if nf_opt x && negb (w_half (nf_fmt x)) then nf_iei x else 0)
+            (match w_lenw (nf_fmt x) with O => 0 | _ => N.of_nat (List.length (fv_body v)) end)
+            (match w_body (nf_fmt x) with
+             | WUpto n => fv_body v ++ zeros (n - List.length (fv_body v))
+             | _ => fv_body v end)
+  else absent.
+
+Lemma octets_ok_app a b : octets_ok (a ++ b) = octets_ok a && octets_ok b.
+Proof. unfold octets_ok. apply forallb_app. Qed.
+Lemma octets_ok_zeros n : octets_ok (zeros n) = true.
+Proof. induction n; cbn; auto. Qed.
+Lemma zeros_all_zero n : forallb (N.eqb 0) (zeros n) = true.
+Proof. induction n; cbn; auto. Qed.
+Lemma octets_same b : octets_lt256 b = octets_ok b.
+Proof. reflexivity. Qed.
+
+Lemma lib_takes_ref_unit x u v bs :
+  fmt_of_type_ok (nf_type x) (nf_fmt x) = true -> w_tag (nf_fmt x) = nf_opt x ->
+  (nf_opt x = false -> w_half (nf_fmt x) = false /\ nf_iei x = 0) ->
+  fmt_conforms (nf_fmt x) (u_kind u) = true -> (nf_opt x = true -> same_ie x u = true) -> iei_ok 128 x = true ->
+  fv_present v = true -> ref_enc_unit u v = Ok bs ->
+  wf_val x (to_lib x v) = true /\ enc_nf x (to_lib x v) = bs /\ sent_body x (to_lib x v) = fv_body v /\
+  fv_present (to_lib x v) = true /\ strict_val x (to_lib x v) = true /\ in_bounds u (to_lib x v) = true.
+Proof.
+  destruct x as [k t o c w]. destruct w as [tag half lw body]. destruct t as [nm hi tlw bd al nw odd]. destruct v as [p i l b].
+  destruct u as [ui un uk uu].
+  unfold fmt_of_type_ok, fmt_conforms, same_ie, is_half_unit, iei_ok, wf_val, typed_val, strict_val, in_bounds, ref_enc_unit,
+    enc_nf, sent_body, to_lib, fixed_size.
+  cbn [nf_opt nf_fmt nf_type nf_iei w_tag w_half w_lenw w_body t_lenw t_body t_has_iei fv_present fv_iei fv_len fv_body u_kind u_iei].
+  intros Ht -> Hmand Hc Hsame Hiei -> He.
+  cbn [fv_present fv_iei fv_len fv_body].
+  apply andb_true_iff in Ht as [Ht Ht4]. apply andb_true_iff in Ht as [Ht Ht3]. apply andb_true_iff in Ht as [Ht1 Ht2].
+  apply Nat.eqb_eq in Ht1. subst tlw.
+  destruct (octets_lt256 b) eqn:Hoct; cbn [negb] in He; [|discriminate]. change (octets_ok b = true) in Hoct.
+  destruct uk as [n|ulw lo uhi| |n|ulw lo uhi].
+  - (* V *)
+    destruct o; cbn [negb andb] in Hc; [discriminate|]. destruct (Hmand eq_refl) as [-> ->].
+    apply andb_true_iff in Hc as [Hc1 Hc2]. apply Nat.eqb_eq in Hc1. subst lw.
+    destruct body as [m| |m]; try discriminate. apply N.eqb_eq in Hc2.
+    destruct (N.of_nat (List.length b) =? n) eqn:En; [|discriminate]. apply N.eqb_eq in En. injection He as <-.
+    cbn [andb negb len_bytes app]. rewrite Hoct.
+    assert (Hb : match bd with BOctet => Nat.eqb (List.length b) 1 | BArray n0 => Nat.eqb (List.length b) n0 | BBuffer => true | BNone => is_nil b end = true).
+    { destruct bd; try discriminate; boolfacts; apply Nat.eqb_eq; lia. }
+    rewrite Hb. destruct hi; cbn; auto 10.
+  - (* LV *)
+    destruct o; cbn [negb andb] in Hc; [discriminate|]. destruct (Hmand eq_refl) as [-> ->].
+    apply andb_true_iff in Hc as [Hc Hc3]. apply andb_true_iff in Hc as [Hc1 Hc2]. apply Nat.eqb_eq in Hc1. subst ulw.
+    assert (Hlw : lw = 1%nat \/ lw = 2%nat) by (apply orb_true_iff in Hc2 as [E|E]; apply Nat.eqb_eq in E; auto).
+    destruct (within (N.of_nat (List.length b)) lo uhi && (l =? N.of_nat (List.length b)) &&
+              (N.of_nat (List.length b) <? (if Nat.eqb lw 1 then 256 else 65536))) eqn:Eok; [|discriminate].
+    apply andb_true_iff in Eok as [Eok Elt]. apply andb_true_iff in Eok as [Ewi Eln]. apply N.eqb_eq in Eln. subst l.
+    injection He as <-. apply N.ltb_lt in Elt. cbn [andb negb app].
+    assert (Hlen : match lw with 1%nat => N.of_nat (List.length b) <? 256 | 2%nat => N.of_nat (List.length b) <? 65536 | _ => N.of_nat (List.length b) =? 0 end = true).
+    { destruct Hlw; subst lw; cbn in Elt; apply N.ltb_lt; lia. }
+    assert (Hmatch : match lw with O => 0 | S _ => N.of_nat (List.length b) end = N.of_nat (List.length b)) by (destruct Hlw; subst lw; reflexivity).
+    rewrite Hmatch, Hlen.
+    unfold within in Ewi. apply andb_true_iff in Ewi as [Ew1 Ew2]. apply N.leb_le in Ew1.
+    destruct body as [m| |m].
+    + apply andb_true_iff in Hc3 as [F1 F2]. apply N.eqb_eq in F1. destruct uhi as [h|]; [|discriminate]. apply N.eqb_eq in F2. apply N.leb_le in Ew2.
+      assert (Hm : N.of_nat (List.length b) = N.of_nat m) by lia.
+      assert (Hb : match bd with BOctet => Nat.eqb (List.length b) 1 | BArray n0 => Nat.eqb (List.length b) n0 | BBuffer => true | BNone => is_nil b end = true).
+      { destruct bd; try discriminate; boolfacts; apply Nat.eqb_eq; lia. }
+      rewrite Hb, Hoct. unfold within. replace (lo <=? N.of_nat (List.length b)) with true by (symmetry; apply N.leb_le; lia).
+      replace (N.of_nat (List.length b) <=? h) with true by (symmetry; apply N.leb_le; lia).
+      destruct Hlw; subst lw; cbn; rewrite ?Hm, ?N.eqb_refl; destruct hi; cbn; auto 10.
+    + destruct bd; try discriminate. rewrite Hoct, N.eqb_refl. unfold within.
+      replace (lo <=? N.of_nat (List.length b)) with true by (symmetry; apply N.leb_le; lia). rewrite Ew2.
+      destruct Hlw; subst lw; cbn; rewrite ?N.eqb_refl; destruct hi; cbn; auto 10.
+    + destruct bd as [|kk| |]; try discriminate. apply Nat.eqb_eq in Ht2. subst kk.
+      apply andb_true_iff in Hc3 as [F1 F2]. destruct uhi as [h|]; [|discriminate]. apply N.leb_le in F1. apply N.leb_le in Ew2.
+      rewrite app_length, zeros_length. replace (Nat.eqb (List.length b + (m - List.length b)) m) with true by (symmetry; apply Nat.eqb_eq; lia).
+      rewrite octets_ok_app, Hoct, octets_ok_zeros. replace (N.of_nat (List.length b) <=? N.of_nat m) with true by (symmetry; apply N.leb_le; lia).
+      rewrite Nat2N.id, skipn_app, Nat.sub_diag, skipn_all, firstn_app, Nat.sub_diag, firstn_all. cbn [app skipn firstn]. rewrite zeros_all_zero, app_nil_r.
+      unfold within. replace (lo <=? N.of_nat (List.length b)) with true by (symmetry; apply N.leb_le; lia).
+      replace (N.of_nat (List.length b) <=? h) with true by (symmetry; apply N.leb_le; lia).
+      destruct Hlw; subst lw; cbn; rewrite ?N.eqb_refl; destruct hi; cbn; auto 10.
+  - (* TV half *)
+    apply andb_true_iff in Hc as [Hc1 Hc2]. cbn in Hc1, Hc2. subst o half. cbn [andb negb].
+    specialize (Hsame eq_refl). apply andb_true_iff in Hsame as [Hs1 _]. apply N.eqb_eq in Hs1. subst ui.
+    apply andb_true_iff in Ht3 as [Ht3 Hbd]. apply andb_true_iff in Ht3 as [Ht3 Hlw0]. apply andb_true_iff in Ht3 as [Hhi _].
+    apply negb_true_iff in Hhi. subst hi. apply Nat.eqb_eq in Hlw0. subst lw.
+    destruct bd; try discriminate. destruct body as [m| |m]; try discriminate. apply Nat.eqb_eq in Ht2. subst m.
+    destruct b as [|ob [|? ?]]; try discriminate.
+    destruct ((ob / 16 =? c) && (i =? c)) eqn:Eok; [|discriminate]. apply andb_true_iff in Eok as [E1 E2].
+    injection He as <-. cbn [List.length Nat.eqb andb]. rewrite Hoct, E1. cbn. auto 10.
+  - (* TV *)
+    apply andb_true_iff in Hc as [Hc Hc3]. apply andb_true_iff in Hc as [Hc Hc2]. apply andb_true_iff in Hc as [Hc0 Hc1].
+    cbn in Hc0. subst o. apply negb_true_iff in Hc1. subst half. apply Nat.eqb_eq in Hc2. subst lw. cbn [andb negb].
+    specialize (Hsame eq_refl). apply andb_true_iff in Hsame as [Hs1 _]. apply N.eqb_eq in Hs1. subst ui.
+    cbn in Ht3. subst hi. apply N.ltb_lt in Hiei.
+    destruct body as [m| |m]; try discriminate. apply N.eqb_eq in Hc3.
+    destruct ((N.of_nat (List.length b) =? n) && (i =? c)) eqn:Eok; [|discriminate]. apply andb_true_iff in Eok as [E1 E2]. apply N.eqb_eq in E1.
+    injection He as <-. cbn [len_bytes app].
+    assert (Hb : match bd with BOctet => Nat.eqb (List.length b) 1 | BArray n0 => Nat.eqb (List.length b) n0 | BBuffer => true | BNone => is_nil b end = true).
+    { destruct bd; try discriminate; boolfacts; apply Nat.eqb_eq; lia. }
+    rewrite Hb, Hoct, N.eqb_refl. replace (c <? 256) with true by (symmetry; apply N.ltb_lt; lia). cbn. rewrite ?N.eqb_refl. cbn. auto 10.
+  - (* TLV *)
+    apply andb_true_iff in Hc as [Hc Hc4]. apply andb_true_iff in Hc as [Hc Hc3]. apply andb_true_iff in Hc as [Hc Hc2]. apply andb_true_iff in Hc as [Hc0 Hc1].
+    cbn in Hc0. subst o. apply negb_true_iff in Hc1. subst half. apply Nat.eqb_eq in Hc2. subst ulw. cbn [andb negb].
+    specialize (Hsame eq_refl). apply andb_true_iff in Hsame as [Hs1 _]. apply N.eqb_eq in Hs1. subst ui.
+    cbn in Ht3. subst hi. apply N.ltb_lt in Hiei.
+    assert (Hlw : lw = 1%nat \/ lw = 2%nat) by (apply orb_true_iff in Hc3 as [E|E]; apply Nat.eqb_eq in E; auto).
+    destruct (within (N.of_nat (List.length b)) lo uhi && (l =? N.of_nat (List.length b)) && (i =? c) &&
+              (N.of_nat (List.length b) <? (if Nat.eqb lw 1 then 256 else 65536))) eqn:Eok; [|discriminate].
+    apply andb_true_iff in Eok as [Eok Elt]. apply andb_true_iff in Eok as [Eok Eiei]. apply andb_true_iff in Eok as [Ewi Eln].
+    apply N.eqb_eq in Eln. subst l. injection He as <-. apply N.ltb_lt in Elt. cbn [app].
+    assert (Hlen : match lw with 1%nat => N.of_nat (List.length b) <? 256 | 2%nat => N.of_nat (List.length b) <? 65536 | _ => N.of_nat (List.length b) =? 0 end = true).
+    { destruct Hlw; subst lw; cbn in Elt; apply N.ltb_lt; lia. }
+    assert (Hmatch : match lw with O => 0 | S _ => N.of_nat (List.length b) end = N.of_nat (List.length b)) by (destruct Hlw; subst lw; reflexivity).
+    rewrite Hmatch, Hlen. replace (c <? 256) with true by (symmetry; apply N.ltb_lt; lia). rewrite N.eqb_refl. cbn [andb].
+    unfold within in Ewi. apply andb_true_iff in Ewi as [Ew1 Ew2]. apply N.leb_le in Ew1.
+    destruct body as [m| |m].
+    + apply andb_true_iff in Hc4 as [F1 F2]. apply N.eqb_eq in F1. destruct uhi as [h|]; [|discriminate]. apply N.eqb_eq in F2. apply N.leb_le in Ew2.
+      assert (Hm : N.of_nat (List.length b) = N.of_nat m) by lia.
+      assert (Hb : match bd with BOctet => Nat.eqb (List.length b) 1 | BArray n0 => Nat.eqb (List.length b) n0 | BBuffer => true | BNone => is_nil b end = true).
+      { destruct bd; try discriminate; boolfacts; apply Nat.eqb_eq; lia. }
+      rewrite Hb, Hoct. unfold within. replace (lo <=? N.of_nat (List.length b)) with true by (symmetry; apply N.leb_le; lia).
+      replace (N.of_nat (List.length b) <=? h) with true by (symmetry; apply N.leb_le; lia).
+      destruct Hlw; subst lw; cbn; rewrite ?Hm, ?N.eqb_refl; cbn; auto 10.
+    + destruct bd; try discriminate. rewrite Hoct, N.eqb_refl. unfold within.
+      replace (lo <=? N.of_nat (List.length b)) with true by (symmetry; apply N.leb_le; lia). rewrite Ew2.
+      destruct Hlw; subst lw; cbn; rewrite ?N.eqb_refl; cbn; auto 10.
+    + destruct bd as [|kk| |]; try discriminate. apply Nat.eqb_eq in Ht2. subst kk.
+      apply andb_true_iff in Hc4 as [F1 F2]. destruct uhi as [h|]; [|discriminate]. apply N.leb_le in F1. apply N.leb_le in Ew2.
+      rewrite app_length, zeros_length. replace (Nat.eqb (List.length b + (m - List.length b)) m) with true by (symmetry; apply Nat.eqb_eq; lia).
+      rewrite octets_ok_app, Hoct, octets_ok_zeros. replace (N.of_nat (List.length b) <=? N.of_nat m) with true by (symmetry; apply N.leb_le; lia).
+      rewrite Nat2N.id, skipn_app, Nat.sub_diag, skipn_all, firstn_app, Nat.sub_diag, firstn_all. cbn [app skipn firstn]. rewrite zeros_all_zero, app_nil_r.
+      unfold within. replace (lo <=? N.of_nat (List.length b)) with true by (symmetry; apply N.leb_le; lia).
+      replace (N.of_nat (List.length b) <=? h) with true by (symmetry; apply N.leb_le; lia).
+      destruct Hlw; subst lw; cbn; rewrite ?N.eqb_refl; cbn; auto 10.
+Qed.
+
+Definition build_msg (xs:list nf_field) (vs:list fval) : msg :=
+  map (fun xv => (nf_name (fst xv), to_lib (fst xv) (snd xv))) (combine xs vs).
+
+Lemma wf_vals_build xs vs : List.length vs = List.length xs ->
+  (forall x v, In (x, v) (combine xs vs) -> wf_val x (to_lib x v) = true) -> wf_vals xs (build_msg xs vs) = true.
+Proof.
+  revert vs; induction xs as [|x xs IH]; intros [|v vs]; cbn; try discriminate; auto.
+  intros [= Hl] H. rewrite String.eqb_refl, (H x v (or_introl eq_refl)). cbn. apply IH; auto.
+Qed.
+
+Lemma to_lib_absent x v : fv_present v = false -> to_lib x v = absent.
+Proof. unfold to_lib. now intros ->. Qed.
+
+Lemma wf_val_absent x : nf_opt x = true -> wf_val x absent = true.
+Proof. unfold wf_val, typed_val. cbn. now intros ->. Qed.
+
+Section LibReadsRef.
+Variable d : msg_desc.
+Variable nf : list nf_field.
+Hypothesis PF : pair_facts d nf.
+
+Lemma row_static x : In x nf ->
+  fmt_of_type_ok (nf_type x) (nf_fmt x) = true /\ w_tag (nf_fmt x) = nf_opt x /\
+  (nf_opt x = false -> w_half (nf_fmt x) = false /\ nf_iei x = 0) /\ iei_ok 128 x = true.
+Proof.
+  intro Hx. destruct (Forall2_in_r _ _ _ _ (pf_nf _ _ PF) Hx) as (f & Hf & Hfx).
+  destruct (nf_row_type_ok _ _ _ Hfx) as (T1 & T2 & T3). split; [auto|]. split; [auto|]. split.
+  - destruct (nf_of_field_inv _ _ _ Hfx) as (_ & g & w & _ & _ & Hc). intro Ho. split; [auto|].
+    destruct (f_optional f); [destruct Hc as (c & _ & _ & ->); discriminate|destruct Hc as (g' & _ & _ & ->); reflexivity].
+  - apply (pf_iei _ _ PF); auto.
+Qed.
+
+Definition enc_of (opt:bool) := if opt then ref_enc_opt else ref_enc_mand.
+
+Lemma enc_align (opt:bool) xs : forall us vs a,
+  (forall x, In x xs -> In x nf /\ nf_opt x = opt) -> units_conform opt xs us = true ->
+  enc_of opt us vs = Ok a ->
+  List.length vs = List.length xs /\
+  a = List.concat (map (fun xv => enc_nf (fst xv) (to_lib (fst xv) (snd xv))) (combine xs vs)) /\
+  (forall x v, In (x, v) (combine xs vs) ->
+     wf_val x (to_lib x v) = true /\ (opt = false -> fv_present v = true) /\
+     (fv_present v = true -> sent_body x (to_lib x v) = fv_body v /\ fv_present (to_lib x v) = true)).
+Proof.
+  induction xs as [|x xs IH]; intros [|u us] vs a Hin Hc He; cbn in Hc; try discriminate.
+  - destruct vs; destruct opt; cbn in He; try discriminate; injection He as <-; (split; [reflexivity|]); (split; [reflexivity|]); intros x v [].
+  - apply andb_true_iff in Hc as [Hc Hc3]. apply andb_true_iff in Hc as [Hc1 Hc2].
+    destruct (Hin x (or_introl eq_refl)) as [Hx Ho]. destruct (row_static x Hx) as (T1 & T2 & T3 & T4).
+    destruct vs as [|v vs]; [destruct opt; discriminate|].
+    assert (Hstep : exists a1 a2, a = a1 ++ a2 /\ enc_of opt us vs = Ok a2 /\
+              ((fv_present v = true /\ ref_enc_unit u v = Ok a1) \/ (opt = true /\ fv_present v = false /\ a1 = []))).
+    { destruct opt; cbn in He |- *.
+      - destruct (fv_present v) eqn:Ep.
+        + destruct (ref_enc_unit u v) as [a1| | |] eqn:E1; try discriminate. cbn in He.
+          destruct (ref_enc_opt us vs) as [a2| | |] eqn:E2; try discriminate. injection He as <-. exists a1, a2. auto.
+        + cbn in He. destruct (ref_enc_opt us vs) as [a2| | |] eqn:E2; try discriminate. injection He as <-. exists [], a2. auto 10.
+      - destruct (fv_present v) eqn:Ep; [|discriminate].
+        destruct (ref_enc_unit u v) as [a1| | |] eqn:E1; try discriminate. cbn in He.
+        destruct (ref_enc_mand us vs) as [a2| | |] eqn:E2; try discriminate. injection He as <-. exists a1, a2. auto. }
+    destruct Hstep as (a1 & a2 & -> & He2 & Hhead).
+    destruct (IH us vs a2) as (Hl & Ha & Hall); auto; [intros; apply Hin; now right|].
+    assert (Hx1 : wf_val x (to_lib x v) = true /\ enc_nf x (to_lib x v) = a1 /\ (opt = false -> fv_present v = true) /\
+                  (fv_present v = true -> sent_body x (to_lib x v) = fv_body v /\ fv_present (to_lib x v) = true)).
+    { destruct Hhead as [[Hp Hu]|(Hot & Hp & ->)].
+      - destruct (lib_takes_ref_unit x u v a1) as (W1 & W2 & W3 & W4 & _); auto.
+        + intros Hxo. rewrite Ho in Hxo. rewrite Hxo in Hc2. exact Hc2.
+      - rewrite (to_lib_absent x v Hp). split; [apply wf_val_absent; congruence|]. split; [reflexivity|].
+        split; [intros ->; discriminate|]. intros Hp'. congruence. }
+    destruct Hx1 as (W1 & W2 & W3 & W4).
+    cbn [List.length combine map List.concat fst snd]. split; [lia|]. split; [now rewrite W2, Ha|].
+    intros x' v' [[= <- <-]|Hi]; auto.
+Qed.
+End LibReadsRef.
+
+Lemma wf_vals_app xs1 xs2 m1 m2 : wf_vals xs1 m1 = true -> wf_vals xs2 m2 = true -> wf_vals (xs1 ++ xs2) (m1 ++ m2) = true.
+Proof.
+  revert m1; induction xs1 as [|x xs IH]; intros [|[k v] m1]; cbn; try discriminate; auto.
+  intros H H2. apply andb_true_iff in H as [H H3]. rewrite H. cbn. auto.
+Qed.
+
+Definition content (v:fval) : option bytes := if fv_present v then Some (fv_body v) else None.
+
+Theorem lib_reads_ref d t mand opt bs :
+  desc_pair_ok d = true -> layout_strict d t = true -> ref_encode t mand opt = Ok bs ->
+  exists m, wf_msg d m = true /\ nas_encode d m = Ok bs /\ nas_decode d bs = Ok m /\
+            map fv_body (fst (msg_view d m)) = map fv_body mand /\
+            map content (snd (msg_view d m)) = map content opt.
+Proof.
+  intros Hd Hl He. destruct (desc_pair_ok_facts d Hd) as (nf & PF). pose proof (pf_nf_of _ _ PF) as Hnf.
+  unfold layout_strict in Hl. unfold ref_encode in He. unfold msg_view, wf_msg. rewrite Hnf in *.
+  destruct (mand_units (tb_mand t)) as [mu|] eqn:Hmu; [|discriminate].
+  destruct (opt_units (tb_opt t)) as [ou|] eqn:Hou; [|discriminate].
+  set (mx := filter (fun x => negb (nf_opt x)) nf) in *. set (ox := filter nf_opt nf) in *.
+  apply andb_true_iff in Hl as [Hl _]. apply andb_true_iff in Hl as [Hum Huo].
+  destruct (ref_enc_mand mu mand) as [a| | |] eqn:Ea; try discriminate. cbn [bind] in He.
+  destruct (ref_enc_opt ou opt) as [b| | |] eqn:Eb; try discriminate. cbn [bind] in He. injection He as <-.
+  assert (Hsplit : nf = mx ++ ox).
+  { apply split_by_flag. rewrite <- (pf_order _ _ PF), mand_then_opt_flags. f_equal.
+    symmetry. apply (Forall2_map_eq _ _ _ _ _ (pf_nf _ _ PF)). intros x y Hab. symmetry. now apply (nf_name_of d). }
+  destruct (enc_align d nf PF false mx mu mand a) as (Hlm & Ha & Hfm); auto.
+  { intros x Hx. apply filter_In in Hx as [Hx Ho]. apply negb_true_iff in Ho. auto. }
+  destruct (enc_align d nf PF true ox ou opt b) as (Hlo & Hb & Hfo); auto.
+  { intros x Hx. apply filter_In in Hx as [Hx Ho]. auto. }
+  set (m := build_msg mx mand ++ build_msg ox opt).
+  assert (WF : wf_vals nf m = true).
+  { rewrite Hsplit. apply wf_vals_app; apply wf_vals_build; auto; intros x v Hi; [apply (Hfm x v Hi) | apply (Hfo x v Hi)]. }
+  assert (Hfv : forall x v, In (x, v) (combine mx mand) \/ In (x, v) (combine ox opt) -> field_val m x = to_lib x v).
+  { intros x v Hi. unfold field_val. rewrite (lookup_nodup (nf_name x) m (to_lib x v)); auto.
+    - apply (nodup_m d nf PF m WF).
+    - unfold m, build_msg. apply in_app_iff. destruct Hi as [Hi|Hi]; [left|right]; apply in_map_iff; exists (x, v); auto. }
+  destruct (combine_fst_snd mx mand (eq_sym Hlm)) as [Hm1 Hm2]. destruct (combine_fst_snd ox opt (eq_sym Hlo)) as [Ho1 Ho2].
+  assert (Henc : nas_encode d m = Ok (a ++ b)).
+  { rewrite (nas_encode_ok d nf PF m WF). f_equal. rewrite <- (nf_names d nf PF). rewrite Hsplit at 2.
+    rewrite map_app, map_app, concat_app, Ha, Hb. f_equal.
+    - rewrite <- Hm1 at 1. rewrite !map_map. f_equal. apply map_ext_in. intros [x v] Hi. cbn [fst snd].
+      assert (Hx : In x nf) by (assert (In x mx) by (rewrite <- Hm1; apply in_map_iff; exists (x, v); auto); apply filter_In in H; tauto).
+      destruct (row_env d nf PF m WF x Hx) as (_ & _ & _ & _ & _ & _ & _ & HE). rewrite HE, (Hfv x v); auto.
+    - rewrite <- Ho1 at 1. rewrite !map_map. f_equal. apply map_ext_in. intros [x v] Hi. cbn [fst snd].
+      assert (Hx : In x nf) by (assert (In x ox) by (rewrite <- Ho1; apply in_map_iff; exists (x, v); auto); apply filter_In in H; tauto).
+      destruct (row_env d nf PF m WF x Hx) as (_ & _ & _ & _ & _ & _ & _ & HE). rewrite HE, (Hfv x v); auto. }
+  exists m. split; [exact WF|]. split; [exact Henc|]. split.
+  { assert (Hw : wf_msg d m = true) by (unfold wf_msg; rewrite Hnf; exact WF).
+    pose proof (roundtrip d m Hd Hw) as R. rewrite Henc in R. exact R. }
+  cbn [fst snd]. split.
+  - rewrite <- Hm1 at 1. rewrite <- Hm2 at 2. rewrite !map_map. apply map_ext_in. intros [x v] Hi. cbn [fst snd].
+    rewrite (Hfv x v) by auto. destruct (Hfm x v Hi) as (_ & Hp & Hs). destruct (Hs (Hp eq_refl)) as [Hs1 _]. exact Hs1.
+  - rewrite <- Ho1 at 1. rewrite <- Ho2 at 2. rewrite !map_map. apply map_ext_in. intros [x v] Hi. cbn [fst snd].
+    rewrite (Hfv x v) by auto. unfold content. destruct (fv_present v) eqn:Ep.
+    + destruct (Hfo x v Hi) as (_ & _ & Hs). destruct (Hs Ep) as [Hs1 Hs2]. unfold ref_view. cbn [fv_present fv_body]. rewrite Hs2. now rewrite Hs1.
+    + rewrite (to_lib_absent x v Ep). reflexivity.
+Qed.
